@@ -80,6 +80,7 @@ type lexer struct {
 	start int
 	pos   int
 	width int
+	inVar bool // lexing the segments of a variable: no nested variable
 }
 
 func (l *lexer) tokens() tokens { return l.toks[:l.len] }
@@ -228,9 +229,11 @@ func lexVariable(l *lexer) error {
 			return err
 		}
 
+		l.inVar = true
 		if err := lexSegments(l); err != nil {
 			return err
 		}
+		l.inVar = false
 		r = l.next()
 	}
 
@@ -254,6 +257,9 @@ func lexSegment(l *lexer) error {
 		l.backup()
 		return l.emit(tokenStar)
 	case r == '{':
+		if l.inVar {
+			return l.errUnexpected()
+		}
 		l.backup()
 		return lexVariable(l)
 	default:
